@@ -24,6 +24,7 @@ LEAN = VERIF / "lean"
 sys.path.insert(0, str(HERE))
 
 import extract_consts  # noqa: E402
+import translate_fns  # noqa: E402
 import proto  # noqa: E402
 
 STD_AXIOMS = {"propext", "Classical.choice", "Quot.sound"}
@@ -230,6 +231,7 @@ def main():
 
     # 1. translator tie
     changed, missing = extract_consts.regenerate()
+    _, fn_missing = translate_fns.regenerate()     # small pure functions re-translated from the source
 
     # 2. kernel re-checks the theorems of this property (+ GenOK + driver)
     broken = []
@@ -243,6 +245,9 @@ def main():
         return 2
     theorems = P.get("theorems", [])
     module = P.get("module")
+    for fm in fn_missing:
+        if any(fm.split(":")[0] in t for t in theorems):
+            broken.append(f"translator obligation: {fm} (source no longer in the translatable subset)")
     ok_names, axioms = [], {}
     if module:
         okb, bad, log = lean_build([module])
